@@ -879,6 +879,12 @@ func TypeTestFacts(at ssa.Instruction, operand ssa.Value) (pos, neg DynSet) {
 	for _, f := range FactsAt(at.Block()) {
 		t := typeTestOf(f.Cond, operand, at)
 		if t == nil {
+			// a predicate helper: `if isX(operand)` where isX answers true only after its own successful type test
+			if !f.Neg {
+				if set := predicateImplies(f.Cond, operand, at); set != nil && pos == nil {
+					pos = set
+				}
+			}
 			continue
 		}
 		if f.Neg {
@@ -1019,4 +1025,75 @@ func dynNilAt(operand ssa.Value, at ssa.Instruction) bool {
 		return true
 	}
 	return false
+}
+
+// predicateImplies: cond is a call `g(…operand…)` of a csvq function with a single bool result; when every return of
+// g that can yield true is dominated by a successful type test of the parameter the operand is passed for, the
+// true edge of the call implies that the operand has one of those types. nil = no implication.
+func predicateImplies(cond ssa.Value, operand ssa.Value, at ssa.Instruction) DynSet {
+	call, ok := cond.(*ssa.Call)
+	if !ok {
+		return nil
+	}
+	g := call.Call.StaticCallee()
+	if g == nil || g.Blocks == nil || g.Signature.Results().Len() != 1 {
+		return nil
+	}
+	if b, isB := g.Signature.Results().At(0).Type().Underlying().(*types.Basic); !isB || b.Kind() != types.Bool {
+		return nil
+	}
+	idx := -1
+	for i, a := range call.Call.Args {
+		if DynSameOperand(a, operand, 0) {
+			if a != operand {
+				if u, isLoad := a.(*ssa.UnOp); isLoad && u.Op == token.MUL && storeBetween(u.X, call, at) {
+					continue
+				}
+			}
+			idx = i
+		}
+	}
+	if idx < 0 || idx >= len(g.Params) {
+		return nil
+	}
+	prm := g.Params[idx]
+	out := DynSet{}
+	for _, r := range Returns(g) {
+		if len(r.Results) != 1 {
+			return nil
+		}
+		if c, isC := r.Results[0].(*ssa.Const); isC {
+			if bv, okb := ConstBool(c); okb && !bv {
+				continue // return false: says nothing
+			}
+		}
+		p, _ := typeFactsNoPredicates(r, prm)
+		if p == nil {
+			return nil
+		}
+		for k := range p {
+			out[k] = true
+		}
+	}
+	if len(out) == 0 {
+		return nil
+	}
+	return out
+}
+
+// typeFactsNoPredicates: the positive facts of direct type tests only (no recursion into predicate helpers).
+func typeFactsNoPredicates(at ssa.Instruction, operand ssa.Value) (pos, neg DynSet) {
+	neg = DynSet{}
+	for _, f := range FactsAt(at.Block()) {
+		t := typeTestOf(f.Cond, operand, at)
+		if t == nil {
+			continue
+		}
+		if f.Neg {
+			neg[TypeName(t.AssertedType)] = true
+		} else {
+			pos = DynSet{TypeName(t.AssertedType): true}
+		}
+	}
+	return pos, neg
 }
